@@ -380,6 +380,40 @@ func genProof(r *Rng, n int, w *bufio.Writer) {
 	}
 }
 
+// dense match sets: proofs that visit (nearly) every node of the tree, where the number of flag bits
+// exceeds 2n-1 because odd-width levels are walked through a duplicated last node.  For every n of the
+// range: all / even / odd / all-but-one transactions matched.
+func mkDenseSets(r *Rng, n int) [][]bool {
+	all, even, odd, but := make([]bool, n), make([]bool, n), make([]bool, n), make([]bool, n)
+	skip := r.Intn(n)
+	for i := 0; i < n; i++ {
+		all[i], even[i], odd[i], but[i] = true, i%2 == 0, i%2 == 1, i != skip
+	}
+	return [][]bool{all, even, odd, but}
+}
+func genMkDenseRange(r *Rng, w *bufio.Writer, fam string, ns []int) {
+	for _, k := range ns {
+		txids := randTxids(r, k)
+		for _, m := range mkDenseSets(r, k) {
+			fmt.Fprintln(w, fam+mkLine(r, txids, m)[2:])
+		}
+	}
+}
+func genMkDense(r *Rng, n int, w *bufio.Writer) {
+	var ns []int
+	for k := 1; k <= 72; k++ {
+		ns = append(ns, k)
+	}
+	genMkDenseRange(r, w, "mkdense", ns)
+}
+func genMkDenseBig(r *Rng, n int, w *bufio.Writer) {
+	ns := []int{127, 128, 129, 130, 255, 256, 257, 258, 511, 512, 513, 514, 1023, 1024, 1025, 1026}
+	if n > 100 { // thorough: more sizes around the powers of two and some random ones
+		ns = append(ns, 2047, 2048, 2049, 4095, 4096, 4097, 73+r.Intn(50), 131+r.Intn(120), 259+r.Intn(250), 515+r.Intn(500))
+	}
+	genMkDenseRange(r, w, "mkdbig", ns)
+}
+
 // small blocks for the literal reading of the corruption clause (flag bits, counts)
 func genMkc(r *Rng, n int, w *bufio.Writer) {
 	for i := 0; i < n; i++ {
@@ -389,6 +423,10 @@ func genMkc(r *Rng, n int, w *bufio.Writer) {
 }
 
 func init() {
+	gens["mkdense"] = genMkDense
+	runs["mkdense"] = runMk
+	gens["mkdbig"] = genMkDenseBig
+	runs["mkdbig"] = runMk
 	gens["mkc"] = genMkc
 	runs["mkc"] = runMk
 	gens["mk"] = genMk
